@@ -11,8 +11,10 @@ LEVEL = "proof"
 TRUSTED = [
     "Coq 8.16.1 kernel + vm_compute; theorems in coq/Props/C13.v",
     "the primitive alias table is re-extracted from tooling/pkg/dsl/types.go on every run (Gen/Tables.v)",
-    "the equivalence of the two type syntaxes is NOT proved over a grammar model yet: it is established by differential generation "
-    "(same package printed in 5 spellings, complete generated C++/Python/MATLAB/JSON trees and embedded schemas compared)",
+    "Model/TypeSyntax.v: hand-written reading of convertType/applyTypeTail/itemCases and Unmarshal*YAML; tied on every run by the "
+    "verif hook `types` (structure built by the real front end for random types in both spellings, compared inside Coq)",
+    "the rest of the equivalence (comments, definition order, file layout, primitive aliases) is established by differential "
+    "generation: the same package printed in 6 spellings, complete generated C++/Python/MATLAB/JSON trees and schemas compared",
     "harness (printers of the alternative spellings)",
 ]
 CFG = ("cpp:\n  sourcesOutputDir: ../out/cpp\n  generateCMakeLists: false\npython:\n  outputDir: ../out/python\njson:\n  outputDir: ../out/json\n"
@@ -48,6 +50,7 @@ def run(ctx):
                    {"broken": failing, "log": log[-3000:]}, no_input=True)
     quick = ctx.tier == "quick"
     rng = ctx.rng
+    type_structures(ctx, 150 if quick else 1500)
     imported_generic_orders(ctx)
     for k in range(4 if quick else 24):
         ns = "Sp" + "abcdefghijklmnopqrstuvwxyz"[k % 26] + ("x" * (k // 26))
@@ -87,6 +90,47 @@ def run(ctx):
                 ctx.report("different-schema:" + style, "the '%s' spelling of a package changes the embedded schema of protocol(s) %s"
                            % (style, bad[:3]), dict(rep, protocols=bad, schema_original=base[3].get(bad[0]) if bad else None,
                                                     schema_respelled=sc.get(bad[0]) if bad else None))
+
+
+def type_structures(ctx, n):
+    """the structure the YAML front end builds for random types in the short and in the expanded spelling (verif hook
+    `types`), against Model.TypeSyntax.conv_short / conv_expanded evaluated in Coq"""
+    import typesyntax as ts
+    from vlib import Ctx
+    trees = [ts.gen(ctx.rng, ctx.rng.choice([1, 2, 3, 4])) for _ in range(n)]
+    lines = []
+    for t in trees:
+        lines.append(json.dumps(ts.short(t)))
+        lines.append(ts.expanded(t))
+    out = [json.loads(l) for l in ctx.hook_call(["types"], input="\n".join(lines) + "\n").splitlines() if l.strip()]
+    cases, meta = [], []
+    for i, t in enumerate(trees):
+        a, b = out[2 * i], out[2 * i + 1]
+        rep = {"short": ts.short(t), "expanded": ts.expanded(t), "structure_short": a, "structure_expanded": b}
+        if "error" in a or "error" in b:
+            ctx.report("spelling-rejected", "the front end rejects a spelling of a type: short %r -> %s; expanded %r -> %s"
+                       % (ts.short(t), a.get("error", "ok"), ts.expanded(t), b.get("error", "ok")), rep)
+            continue
+        cases.append("(%s, %s, %s)" % (ts.coq_sh(t), ts.coq_gty(a["type"]), ts.coq_gty(b["type"])))
+        meta.append(rep)
+    shards = [list(range(i, min(i + 100, len(cases)))) for i in range(0, len(cases), 100)]
+    st = []
+    for idx in shards:
+        body = ("From Coq Require Import List NArith Bool.\nImport ListNotations.\nOpen Scope N_scope.\n"
+                "From YV Require Import Base.Wire Model.Binary Model.Json Model.TypeSyntax.\n"
+                "Definition cases : list tcase := [\n " + ";\n ".join(cases[i] for i in idx) + "\n].\n"
+                "Definition ST := Eval vm_compute in map tcase_status cases.\nPrint ST.\n")
+        st += Ctx.parse_nat_list(ctx.coq_eval("ts_%d" % idx[0], body, timeout=900), "ST")
+    for rep, s_ in zip(meta, st):
+        ctx.case(("type-structure", rep["short"]), sample={"short": rep["short"], "expanded": rep["expanded"],
+                                                            "same_structure": rep["structure_short"] == rep["structure_expanded"]})
+        ctx.count("type_structure", "same" if rep["structure_short"] == rep["structure_expanded"] else "different")
+        if s_ == 1:
+            ctx.report("short-syntax-structure", "the structure built for the short spelling %r is not Model.TypeSyntax.conv_short (correspondence broken)" % rep["short"], rep)
+        elif s_ == 2:
+            ctx.report("expanded-syntax-structure", "the structure built for the expanded spelling %r is not Model.TypeSyntax.conv_expanded" % rep["expanded"], rep)
+        if rep["structure_short"] != rep["structure_expanded"]:
+            ctx.report("spellings-differ-in-structure", "the front end builds different types for %r and its expanded spelling %r" % (rep["short"], rep["expanded"]), rep)
 
 
 def imported_generic_orders(ctx):
